@@ -37,22 +37,23 @@ theorem C11_adjres_storing_handler_innermost (evs : List Event) :
   have h := run_store_invariant evs
   ⟨h.1, fun x r hs hx => ⟨(h.2.1 ⟨x, r, hs, hx⟩).1, quiet_tagfun (h.2.1 ⟨x, r, hs, hx⟩).2⟩, h.2.2⟩
 
-/-- the test `if (tmp_i != tmp_e) error(..)` of `cov_mat(false)` never reads unassigned / dangling iterators —
-    PARTIAL: under the table condition `iterErrGuarded` (every such test stands behind `state != s ||` with `s` a state
-    in which the iterators are known to be assigned, at a point where the invariant holds).
-    FULL statement: the same without the hypothesis, `∀ evs, (run St.init evs).uninitCovEnd = false`.
-    MISSING: the fix notes/proposed/C11-adjres-covmat-uninit.diff (`if (state != s_flt_end || tmp_i != tmp_e)`);
-    on the current tree `iterErrGuarded = false` and the full statement is FALSE: `<cov-mat></cov-mat>` compares two
-    iterators that were never assigned,
+/-- the table condition of the next theorem holds on the generated tables: every test `tmp_i != tmp_e` other than the guard
+    of a store stands behind `state != s ||` with `s` a state in which both iterators are known to be assigned
+    (kernel `decide`; false before fix 8840ff08 and whenever that guard is removed) -/
+theorem C11_adjres_iterErrGuarded : iterErrGuarded = true := iterErrGuarded_true
 
-      example : (run St.init (toCovMat ++ [.stop])).uninitCovEnd = true := by decide
-      example : iterErrGuarded = false := by decide
-
-    (both hold today, checked when this file was written; they stop holding when the fix lands, then the hypothesis
-    is discharged by `by decide` and the theorem becomes the full one). -/
-theorem C11_adjres_covend_iterators_assigned_partial (hg : iterErrGuarded = true) (evs : List Event) :
+/-- the test `if (state != s_flt_end || tmp_i != tmp_e) error(..)` of `cov_mat(false)` never reads unassigned / dangling
+    iterators, for EVERY event sequence (FULL; it was `_partial` under the hypothesis `iterErrGuarded = true` while
+    `<cov-mat></cov-mat>` compared two iterators that were never assigned) -/
+theorem C11_adjres_covend_iterators_assigned (evs : List Event) :
     (run St.init evs).uninitCovEnd = false :=
-  run_no_uninit_covend hg evs
+  run_no_uninit_covend_all evs
+
+/-- non-vacuity: the end tag of an empty `<cov-mat>` reaches the test with NO iterator assigned and does not read them
+    (the state guard decides); the document is refused with a located error -/
+example :
+    (run St.init (toCovMat ++ [.stop])).uninitCovEnd = false ∧ (run St.init (toCovMat ++ [.stop])).iterI = none ∧
+    (run St.init (toCovMat ++ [.stop])).err.isSome = true := by decide
 
 /-! ### non-vacuity -/
 
@@ -99,8 +100,8 @@ example :
     scan false [.push .flt_, .setState .flt_end] (startA .flt_) = false ∧
     scan false [.push .flt_, .setState .flt_] (startA .flt_) = true := by decide
 
-/-- the hypothesis of the partial theorem is satisfiable: the end branch of `cov_mat` as the proposed fix generates it
-    passes the strict scan, the current one does not pass whatever state guard is missing -/
+/-- the strict scan does reject: the end branch of `cov_mat` as the tree generates it passes, the same test without the
+    state guard (the code before fix 8840ff08) or behind a state in which the iterators are unknown does not -/
 example :
     scan true [.iterErr (some .flt_end) false .e_bad_number_of_elements_in_covariance_mat, .setState .cov_mat_end]
       (endA .cov_mat) = true ∧
